@@ -50,6 +50,12 @@ def items(b, tag):
             b.expr_stmt(b.call(v('require'), [b.bin('Equal', b.member(v('msg'), 'sender'), v(x))])), b.expr_stmt(b.call(v('selfdestruct'), [b.call(b.ty('Payable'), [v(x)])]))]))], name='Vault' + tag),
         'contract_kill_unguarded': lambda: fam.contract_with(b, [b.state_var(b.ty('Address'), y), b.function('Function', 'shutdown', [], [b.fattr('visibility', 'public')], b.block([
             b.expr_stmt(b.call(v('selfdestruct'), [b.call(b.ty('Payable'), [v(y)])]))]))], name='Faucet' + tag),
+        # a user-defined type name used in one item and declared (as an enum) in ANOTHER item: what the other item says about the name
+        # must not change the verdict on this item
+        'contract_struct_with_user_typed_field': lambda: fam.contract_with(b, [b.struct('Order' + tag, [(b.ty('Uint', 248), 'price'), (b.var('Side'), 'side'), (b.ty('Uint', 8), 'flags')]),
+                                                                            b.state_var(b.ty('Uint', 128), x), b.state_var(b.var('Side'), y), b.state_var(b.ty('Uint', 128), 'z' + tag)], name='Book' + tag),
+        'contract_declaring_enum_side': lambda: fam.contract_with(b, [b.enum('Side', ['Buy', 'Sell'])], name='Types' + tag),
+        'file_level_enum_side': lambda: b.supart(b.enum('Side', ['Buy', 'Sell'])),
         # multi-byte identifiers: byte offsets and character counts differ behind this item
         'struct_unicode': lambda: b.supart(b.struct('Größe' + tag, [(b.ty('Uint', 8), 'später'), (b.ty('Uint', 256), 'naïve_名前'), (b.ty('Uint', 8), 'ça')])),
     }
@@ -177,9 +183,9 @@ def body(chk):
                 todo.append((k1, k2, place, value))
     if chk.quick:
         chk.rng.shuffle(todo)
-        core = [t for t in todo if t[2] != 'first' or 'ctor' in t[0] + t[1]] + [t for t in todo if 'kill' in t[0] and 'kill' in t[1] and t[0] != t[1]]
+        core = [t for t in todo if t[2] != 'first' or 'ctor' in t[0] + t[1]] + [t for t in todo if 'kill' in t[0] and 'kill' in t[1] and t[0] != t[1]] + [t for t in todo if 'user_typed' in t[0] + t[1] and ('enum' in t[0] + t[1])]
         chk.rng.shuffle(core)
-        core = [t for t in core if 'kill' in t[0] and 'kill' in t[1]] + core
+        core = [t for t in core if ('kill' in t[0] and 'kill' in t[1]) or ('user_typed' in t[0] + t[1] and 'enum' in t[0] + t[1])] + core
         todo = (core[:40] + todo[:40] + unicode_first[:6])
     chk.bounds = {'files': '%d pairs of top-level items x %d detectors' % (len(todo), len(DETECTORS)),
                   'items': kinds, 'pragma': 'before, between and after the items; versions on both sides of the 0.8.4 gate',
